@@ -266,9 +266,9 @@ func init() {
 			return 6
 		},
 		Par:              8,
-		Run:              c02Run,
+		Run:              func(c *fw.Ctx) { withHookMonitor(c, func() { c02Run(c) }) },
 		CPUBudget:        900,
 		MinNontrivial:    func(string) int { return 20 },
-		RequiredCounters: []string{"events_compared", "empty_nodes_compared", "grammars_fixWhitespace", "grammars_plain_ranges"},
+		RequiredCounters: []string{"hook_compiles_monitored", "events_compared", "empty_nodes_compared", "grammars_fixWhitespace", "grammars_plain_ranges"},
 	})
 }
